@@ -8,7 +8,7 @@ from . import common, gen, cli, realrun
 PKGS = ["", "a", "a/b", "c-d"]
 
 
-def std_project(scroot, name="p", rng=None, rich_outputs=False, disable_git=True):
+def std_project(scroot, name="p", rng=None, rich_outputs=False, disable_git=True, hostile=None):
     """experiments in nested packages, a run_command and a combine in between"""
     T = gen.mk_task
     tasks = [
@@ -37,7 +37,7 @@ def std_project(scroot, name="p", rng=None, rich_outputs=False, disable_git=True
                           ["symlink", "rel-link", "data/o.bin"], ["symlink", "dir-link", "nested/deep"]]
             steps.append(["marker"])
             scripts[t["id"]] = {"steps": steps}
-    return realrun.Project(scroot, tasks, scripts, name=name, disable_git=disable_git)
+    return realrun.Project(scroot, tasks, scripts, name=name, disable_git=disable_git, hostile=hostile)
 
 
 def run_history(pr, rng, nsteps, base_scripts=None, clock_base=None):
